@@ -1,0 +1,181 @@
+//! Verification hooks (feature `verif-hooks`): read-only structural audit of the
+//! intrusive list and its index. Nothing here is used by the library itself.
+use super::{EntryNode, RawLRU};
+use crate::KeyRef;
+use alloc::format;
+use alloc::string::String;
+use alloc::vec::Vec;
+use core::hash::{BuildHasher, Hash};
+
+/// Result of [`RawLRU::verif_audit`].
+#[doc(hidden)]
+#[derive(Debug, Default, Clone)]
+pub struct VerifAudit {
+    /// Nodes (or sentinels) that are reachable but are not live heap blocks.
+    pub dangling: Vec<String>,
+    /// Violations of the list/index well-formedness invariant.
+    pub structural: Vec<String>,
+}
+
+impl VerifAudit {
+    /// True when nothing was found.
+    pub fn is_ok(&self) -> bool {
+        self.dangling.is_empty() && self.structural.is_empty()
+    }
+}
+
+impl<K, V, E, S> RawLRU<K, V, E, S> {
+    /// Size of one heap node (sentinels and entries alike).
+    #[doc(hidden)]
+    pub fn verif_node_size() -> usize {
+        core::mem::size_of::<EntryNode<K, V>>()
+    }
+}
+
+impl<K: Hash + Eq, V, E, S: BuildHasher> RawLRU<K, V, E, S> {
+    /// Walks the list in both directions and compares it with the index.
+    ///
+    /// `is_live(ptr, size)` must say whether `ptr` is the start of a live heap block of
+    /// `size` bytes; it is consulted before any node is dereferenced, so the audit is safe
+    /// on a corrupted structure as long as the oracle is exact. Pass `&|_, _| true` when no
+    /// such oracle exists. With `lookup == false` no user code (Hash/Eq) is called.
+    #[doc(hidden)]
+    pub fn verif_audit(
+        &self,
+        is_live: &dyn Fn(*const u8, usize) -> bool,
+        lookup: bool,
+    ) -> VerifAudit {
+        let mut out = VerifAudit::default();
+        let sz = Self::verif_node_size();
+        let n = self.map.len();
+        let live = |p: *const EntryNode<K, V>| !p.is_null() && is_live(p as *const u8, sz);
+
+        if !live(self.head) {
+            out.dangling.push(format!("head sentinel {:p} is not a live block", self.head));
+            return out;
+        }
+        if !live(self.tail) {
+            out.dangling.push(format!("tail sentinel {:p} is not a live block", self.tail));
+            return out;
+        }
+        unsafe {
+            if !(*self.head).prev.is_null() {
+                out.structural.push(String::from("head.prev is not null"));
+            }
+            if !(*self.tail).next.is_null() {
+                out.structural.push(String::from("tail.next is not null"));
+            }
+        }
+
+        // forward walk
+        let mut fwd: Vec<*const EntryNode<K, V>> = Vec::new();
+        let mut fwd_ok = false;
+        unsafe {
+            let mut prev: *const EntryNode<K, V> = self.head;
+            let mut cur: *const EntryNode<K, V> = (*self.head).next;
+            for _ in 0..(n + 2) {
+                if cur == self.tail as *const _ {
+                    if (*self.tail).prev as *const _ != prev {
+                        out.structural.push(String::from("tail.prev is not the last node of the forward walk"));
+                    }
+                    fwd_ok = true;
+                    break;
+                }
+                if cur == self.head as *const _ {
+                    out.structural.push(String::from("forward walk returned to head"));
+                    break;
+                }
+                if !live(cur) {
+                    out.dangling.push(format!("forward walk reached {:p} (step {}), not a live node", cur, fwd.len()));
+                    break;
+                }
+                if (*cur).prev as *const _ != prev {
+                    out.structural.push(format!("node {} of forward walk: prev does not point at its predecessor", fwd.len()));
+                }
+                fwd.push(cur);
+                prev = cur;
+                cur = (*cur).next;
+            }
+        }
+        if !fwd_ok && out.is_ok() {
+            out.structural.push(format!("forward walk did not reach tail within {} steps", n + 2));
+        }
+
+        // backward walk
+        let mut bwd: Vec<*const EntryNode<K, V>> = Vec::new();
+        let mut bwd_ok = false;
+        unsafe {
+            let mut cur: *const EntryNode<K, V> = (*self.tail).prev;
+            for _ in 0..(n + 2) {
+                if cur == self.head as *const _ {
+                    bwd_ok = true;
+                    break;
+                }
+                if cur == self.tail as *const _ {
+                    out.structural.push(String::from("backward walk returned to tail"));
+                    break;
+                }
+                if !live(cur) {
+                    out.dangling.push(format!("backward walk reached {:p} (step {}), not a live node", cur, bwd.len()));
+                    break;
+                }
+                bwd.push(cur);
+                cur = (*cur).prev;
+            }
+        }
+        if !bwd_ok && out.dangling.is_empty() {
+            out.structural.push(format!("backward walk did not reach head within {} steps", n + 2));
+        }
+        if fwd_ok && bwd_ok {
+            let mut rev = bwd.clone();
+            rev.reverse();
+            if rev != fwd {
+                out.structural.push(String::from("backward walk is not the mirror image of the forward walk"));
+            }
+        }
+        if fwd_ok && fwd.len() != n {
+            out.structural.push(format!("list has {} nodes but the index has {} entries", fwd.len(), n));
+        }
+        for (i, a) in fwd.iter().enumerate() {
+            if fwd[..i].contains(a) {
+                out.structural.push(format!("node {} appears twice in the forward walk", i));
+            }
+        }
+
+        // index -> list
+        for (kr, node) in self.map.iter() {
+            let p = node.as_ptr() as *const EntryNode<K, V>;
+            if p == self.head as *const _ || p == self.tail as *const _ {
+                out.structural.push(String::from("a sentinel is registered in the index"));
+                continue;
+            }
+            if !live(p) {
+                out.dangling.push(format!("index entry points at {:p}, not a live node", p));
+                continue;
+            }
+            let own_key = unsafe { (*p).key.as_ptr() };
+            if kr.k != own_key {
+                out.structural.push(String::from("index key does not point at the key stored in its own node"));
+            }
+            if fwd_ok && !fwd.contains(&p) {
+                out.structural.push(String::from("indexed node is not linked in the list"));
+            }
+        }
+
+        // list -> index (calls Hash/Eq of K)
+        if lookup && out.dangling.is_empty() {
+            for (i, p) in fwd.iter().enumerate() {
+                let k = unsafe { (**p).key.as_ptr() };
+                match self.map.get(&KeyRef { k }) {
+                    None => out.structural.push(format!("list node {} is not found through the index", i)),
+                    Some(nn) => {
+                        if nn.as_ptr() as *const EntryNode<K, V> != *p {
+                            out.structural.push(format!("index lookup of list node {}'s key yields a different node", i));
+                        }
+                    }
+                }
+            }
+        }
+        out
+    }
+}
